@@ -42,6 +42,17 @@ func init() {
 			return map[string]int64{"sswu": 3000, "sswu:exceptional": 3, "sswu:gx1-square": 1000, "sswu:gx1-nonsquare": 1000, "sswu:flipped": 500, "sswu:not-flipped": 500, "iso": 3000, "sswu:sgn0(u)=1": 500, "sswu:sgn0(u)=0": 500, "concurrent-batches": 4, "seq": 200, "steered:tv3": 20, "steered:u2": 20, "steered:tv6": 10, "steered:x2": 10}
 		},
 	})
+
+	Registry["C11"].ColdStart = func(c *mon.Ctx) {
+		r := c.SharedRng(fmt.Sprintf("cold%d", c.Shard))
+		cs := &c11Case{Kind: "concurrent", Class: "concurrent-cold-start"}
+
+		for g := 0; g < 16; g++ {
+			cs.Conc = append(cs.Conc, fmt.Sprintf("%x", gen.Draw(r, oracle.P).X))
+		}
+
+		c11RunConcurrent(c, cs)
+	}
 }
 
 func c11Generate(c *mon.Ctx) {
@@ -334,7 +345,7 @@ func c11RunConcurrent(c *mon.Ctx, cs *c11Case) {
 
 	c.Count("concurrent-batches")
 
-	start := make(chan struct{})
+	line := mon.StartLine(len(jobs))
 
 	var wg sync.WaitGroup
 
@@ -344,7 +355,7 @@ func c11RunConcurrent(c *mon.Ctx, cs *c11Case) {
 		go func(j *job) {
 			defer wg.Done()
 			defer func() { j.pan = recover() }()
-			<-start
+			line()
 
 			for rep := 0; rep < 50; rep++ {
 				e := secp256k1.IsogenySecp256k13iso(secp256k1.SSWU(mon.FE(j.u)))
@@ -357,7 +368,6 @@ func c11RunConcurrent(c *mon.Ctx, cs *c11Case) {
 		}(j)
 	}
 
-	close(start)
 	wg.Wait()
 
 	for i, j := range jobs {
